@@ -28,6 +28,40 @@ theorem v3_snapshot_choice (snaps : List Snap) (T : Nat) :
     · intro h a ha; exact h a ((exSort_mem snaps a).2 ha)
     · intro h a ha; exact h a ((exSort_mem snaps a).1 ha)
 
+/-- The chosen snapshot does not depend on the order in which generations (or snapshots) are
+listed: two listings with the same snapshots, whose creation times are pairwise distinct, yield
+the same choice. (RestoreV3 must therefore sort the *combined* list: the generation listing is
+ordered by random IDs, not by time.) With equal creation times the exchange sort may break the
+tie differently; the created time of the choice is still the same. -/
+theorem v3_snapshot_choice_perm (l1 l2 : List Snap) (T : Nat)
+    (hmem : ∀ a, a ∈ l1 ↔ a ∈ l2)
+    (hdist : ∀ a ∈ l1, ∀ b ∈ l1, a.created = b.created → a = b) :
+    findBestSnapshot (exSort l1) T = findBestSnapshot (exSort l2) T := by
+  have h1 := v3_snapshot_choice l1 T
+  have h2 := v3_snapshot_choice l2 T
+  cases r1 : findBestSnapshot (exSort l1) T with
+  | none =>
+    have hn := h1.2.1 r1
+    exact (h2.2.2 (fun a ha => hn a ((hmem a).2 ha))).symm
+  | some s1 =>
+    cases r2 : findBestSnapshot (exSort l2) T with
+    | none =>
+      have hn := h2.2.1 r2
+      have := h1.1 s1 r1
+      rw [hn s1 ((hmem s1).1 this.1)] at this
+      exact absurd this.2.1 (by simp)
+    | some s2 =>
+      have a1 := h1.1 s1 r1
+      have a2 := h2.1 s2 r2
+      have le1 := a2.2.2 s1 ((hmem s1).1 a1.1) a1.2.1
+      have le2 := a1.2.2 s2 ((hmem s2).2 a2.1) a2.2.1
+      rw [hdist s1 a1.1 s2 ((hmem s2).2 a2.1) (Nat.le_antisymm le1 le2)]
+
+theorem v3_snapshot_choice_perm' (l1 l2 : List Snap) (T : Nat) (hp : l1.Perm l2)
+    (hdist : ∀ a ∈ l1, ∀ b ∈ l1, a.created = b.created → a = b) :
+    findBestSnapshot (exSort l1) T = findBestSnapshot (exSort l2) T :=
+  v3_snapshot_choice_perm l1 l2 T (fun _ => hp.mem_iff) hdist
+
 /-- `eligible` spelled out. -/
 theorem eligible_iff (T : Nat) (s : Snap) : eligible T s = true ↔ (T = 0 ∨ s.created ≤ T) := by
   simp [eligible]
@@ -222,6 +256,11 @@ example : restorePlan exSnaps exSegs 315 = .ok (⟨0, 2, 300⟩, [(2, [⟨0, 2, 
 example : restorePlan exSnaps exSegs 250 =
     .ok (⟨0, 0, 100⟩, [(0, [⟨0, 0, 0, 4152, 110⟩, ⟨0, 0, 4152, 8240, 120⟩]), (1, [⟨0, 1, 0, 4152, 210⟩])]) := by decide
 example : restorePlan exSnaps exSegs 50 = .error .noSnapshots := by decide
+/-- listing the newer generation first (its ID sorts first) changes nothing -/
+def exPermSnaps : List Snap := [⟨0, 0, 500⟩, ⟨0, 1, 600⟩, ⟨1, 0, 100⟩, ⟨1, 2, 300⟩]
+example : restorePlan exPermSnaps [] 0 = .ok (⟨0, 1, 600⟩, []) := by decide
+example : restorePlan exPermSnaps [] 550 = .ok (⟨0, 0, 500⟩, []) := by decide
+example : restorePlan exPermSnaps [] 499 = .ok (⟨1, 2, 300⟩, []) := by decide
 /-- removing 1/0 from generation 0 is reported -/
 example : restorePlan [⟨0, 0, 100⟩] (exSegs.filter (· ≠ ⟨0, 1, 0, 4152, 210⟩)) 0 = .error .missingIndex := by decide
 /-- removing 0/4152 is reported -/
